@@ -7,6 +7,10 @@ import re, os, sys, random, subprocess, json, shutil
 W,N,K,SEED=int(sys.argv[1]),int(sys.argv[2]),int(sys.argv[3]),int(sys.argv[4])
 OPS=sys.argv[5] if len(sys.argv)>5 else 'all'
 REPO='/repo'
+# the verifier is used from a snapshot so that work going on in /verif (relocks, new trusted clauses) cannot disturb a run
+VERIF=os.environ.get('MUT_VERIF','/verif')
+SKIP=set()
+if os.path.exists('/tmp/mt/skip.json'): SKIP=set(tuple(x) for x in json.load(open('/tmp/mt/skip.json')))
 ENV=dict(os.environ, GOFLAGS='-mod=mod', GOPROXY='off')
 files=[f for f in subprocess.run("git ls-files '*.go'",shell=True,cwd=REPO,capture_output=True,text=True).stdout.split()
        if not f.endswith('_test.go') and 'verif_' not in f and not f.startswith('cmd/gtree-wasm') and not f.startswith('testutil') and 'example' not in f and f not in ('cmd/gtree/web.go','cmd/gtree/template.go')]
@@ -15,7 +19,7 @@ ops=[(r' == ',' != '),(r' != ',' == '),(r' < ',' <= '),(r' <= ',' < '),(r' > ','
      (r'\bcontinue\b','break'),(r'\+= ',' = ')]
 muts=[]
 LOCKFUNCS=set()
-for l in open('/verif/obligations.lock'):
+for l in open(VERIF+'/obligations.lock'):
     for m in re.finditer(r'"(?:tinywasm:)?([\w\.\[\]#]+?)/',l): LOCKFUNCS.add(m.group(1))
 for f in files:
     lines=open(os.path.join(REPO,f)).read().split('\n')
@@ -44,7 +48,7 @@ for f,i,a,b,rep,pat in mine:
     orig=open(path).read()
     lines=orig.split('\n')
     newline=lines[i][:a]+ (re.sub(pat,rep,lines[i][a:b]) if '\\' in rep else rep) + lines[i][b:] if pat!='DELETE' else '\t// (deleted)'
-    if newline==lines[i]: continue
+    if newline==lines[i] or (f,i+1,newline.strip()) in SKIP: continue
     ml=lines[:]; ml[i]=newline
     open(path,'w').write('\n'.join(ml))
     rec={'file':f,'line':i+1,'from':lines[i].strip(),'to':newline.strip()}
@@ -63,10 +67,10 @@ for f,i,a,b,rep,pat in mine:
         if fn:
             keys=sorted(k for k in LOCKFUNCS if k==pkg+fn or k.startswith(pkg+fn+'#') or k.startswith(pkg+fn+'['))
             if keys:
-                q=subprocess.run("/verif/bin/gvc -repo %s -tags %s -trusted /verif/gvc/trusted -funcs '%s'"%(work,tags,','.join(keys)),shell=True,cwd='/verif',env=ENV,capture_output=True,text=True)
+                q=subprocess.run("%s/bin/gvc -repo %s -tags %s -trusted %s/gvc/trusted -funcs '%s'"%(VERIF,work,tags,VERIF,','.join(keys)),shell=True,cwd=VERIF,env=ENV,capture_output=True,text=True)
                 alarms=['ALARM (function alone) '+l[5:] for l in (q.stdout+q.stderr).split('\n') if l.startswith('FAIL') and 'gtree.treeSimple.mkdir/post#dryrun' not in l]
         if not alarms:
-            r=subprocess.run('/verif/bin/gvc all -repo %s -verif /verif'%work,shell=True,cwd='/verif',env=ENV,capture_output=True,text=True)
+            r=subprocess.run('%s/bin/gvc all -repo %s -verif %s'%(VERIF,work,VERIF),shell=True,cwd=VERIF,env=ENV,capture_output=True,text=True)
             alarms=[l for l in (r.stdout+r.stderr).split('\n') if l.startswith('ALARM') or l.startswith('TOOL-ERROR')]
         rec['verdict']='killed' if ((r is not None and r.returncode!=0) or alarms) else 'SURVIVED'
         rec['alarms']=[a[:160] for a in alarms[:3]]
